@@ -282,7 +282,7 @@ type Explorer struct {
 	Violation  string
 	ViolExec   *Exec
 	Outcomes   map[string]int
-	States     map[string]bool
+	States     map[uint64]bool // hashes of the distinct scheduling-point prefixes seen (states of the exploration tree)
 }
 
 // Explore runs the search; returns false when a violation was found.
@@ -291,7 +291,7 @@ func (x *Explorer) Explore() bool {
 		x.Outcomes = map[string]int{}
 	}
 	if x.States == nil {
-		x.States = map[string]bool{}
+		x.States = map[uint64]bool{}
 	}
 	if x.Horizon == 0 {
 		x.Horizon = 5000
@@ -313,10 +313,15 @@ func (x *Explorer) explore(prefix []int) bool {
 		return false
 	}
 	// states: prefixes of the trace
-	acc := ""
+	h := uint64(14695981039346656037) // FNV-1a, updated token by token: one 8-byte key per prefix instead of the prefix text
 	for _, t := range strings.Split(e.TraceHash, " ") {
-		acc += t + " "
-		x.States[acc] = true
+		for i := 0; i < len(t); i++ {
+			h ^= uint64(t[i])
+			h *= 1099511628211
+		}
+		h ^= ' '
+		h *= 1099511628211
+		x.States[h] = true
 	}
 	if msg := x.Check(e); msg != "" {
 		x.Violation = msg
